@@ -267,6 +267,40 @@ class World:
         masterapi.update_allocations(self.admin, self.scn['allocsets'][k - 1])
         self.allocset = k
 
+    def oprio(self):
+        """Priority each scheduled instance is DECLARED to have: the manifest's own
+        priority when it carries one (-1 = unset), else that of the first matching
+        assignment, else 1 (independent re-statement of the rule)."""
+        import fnmatch
+        doc = self.scn['allocsets'][getattr(self, 'allocset', 1) - 1]
+        out = {}
+        for a, inst in self.names.items():
+            path = z.path.scheduled(inst)
+            if path not in self.store.nodes:
+                continue
+            try:
+                man = json.loads(self.store.nodes[path].data.decode() or '{}') or {}
+            except ValueError:
+                man = {}
+            prio = None
+            if 'priority' in man and int(man['priority']) != -1:
+                prio = int(man['priority'])
+            if prio is None:
+                prio = 1
+                done = False
+                for obj in doc:
+                    for asg in obj.get('assignments', []):
+                        pat = asg['pattern']
+                        key = pat[0:pat.find('.')]
+                        if key == inst[0:inst.find('.')] and fnmatch.fnmatchcase(inst, pat + '#*'):
+                            prio = int(asg['priority'])
+                            done = True
+                            break
+                    if done:
+                        break
+            out[a] = prio
+        return out
+
     def declared(self):
         """Partition each scheduled instance is assigned to by the allocations
         document in force (independent re-statement of the assignment rule:
@@ -478,6 +512,7 @@ def replay(scn, history):
                 line['spells'] = {k: v for k, v in w.spells.items()}
                 if ev == 'Cycle' and w.placement is not None:
                     line['declared'] = w.declared()
+                    line['oprio'] = w.oprio()
                     line['queues'] = w.queues
                     line['placement'] = [[w.aname(n), b or '', rels(eb), a or '', rels(ea)]
                                          for n, b, eb, a, ea in w.placement]
@@ -515,6 +550,7 @@ def sched_segments(tid, lines):
             line['queues'] = l['queues']
             line['placement'] = l['placement']
             line['declared'] = l.get('declared', {})
+            line['oprio'] = l.get('oprio', {})
         cur.append(line)
     if len(cur) > 1:
         segs.append(cur)
